@@ -103,9 +103,11 @@ int c_ensrank(double eps, int nval, int ncol, double* sim, \
                 else valuenext = value+1.;
                 index = ensemb[j][1];
 
-                /* Value differences */
-                diff = fabs(value-valueprev);
-                diffnext = fabs(value-valuenext);
+                /* Value differences. The first (last) value has no
+                 * previous (next) one: it differs from it by construction
+                 * (value+1 is not different from value beyond 1e16) */
+                diff = j>0 ? fabs(value-valueprev) : eps+1.;
+                diffnext = j<2*ncol-1 ? fabs(value-valuenext) : eps+1.;
 
                 /* Start a tie sequence */
                 if(index<ncol && diff>=eps)
